@@ -113,6 +113,14 @@ def call_shapes(sig, extra_kw=("zz", "yy"), method=False):
     if has_w:
         extras.append(("*",))         # legal through ** unpacking; also the names of the surplus entries in joblib's own mapping
         extras.append(("**", "zz"))
+    if has_w:
+        # a surplus keyword named like the function's own *args / **kwargs parameter: f(1, kwargs=2) lands under '**'
+        wname = [s[1] for s in sig if s[0] == "W"][0]
+        extras.append((wname,))
+        vnames = [s[1] for s in sig if s[0] == "V"]
+        if vnames:
+            extras.append((vnames[0],))
+            extras.append((vnames[0], wname))
     if has_w and method:
         extras.append(("self",))      # accepted by Python when 'self' is positional-only
     for npos in range(0, len(pos) + 3):
